@@ -8,6 +8,7 @@ import Driver.WinStream
 import Driver.FsStream
 import Driver.WriterStream
 import Driver.E2EStream
+import Driver.ConcStream
 open Driver
 
 def main (args : List String) : IO UInt32 := do
@@ -30,4 +31,6 @@ def main (args : List String) : IO UInt32 := do
   | ["mon", "writer"] => runMon WriterStream.monInit WriterStream.monStep WriterStream.monFinish; return 0
   | ["model", "e2e"] => runModel E2EStream.init E2EStream.step; return 0
   | ["mon", "e2e"] => runMon E2EStream.monInit E2EStream.monStep E2EStream.monFinish; return 0
+  | ["model", "conc"] => runModel ConcStream.monInit ConcStream.step; return 0
+  | ["mon", "conc"] => runMon ConcStream.monInit ConcStream.monStep ConcStream.monFinish; return 0
   | _ => IO.eprintln "usage: driver model|mon <stream>"; return 2
